@@ -43,7 +43,9 @@ extern "C" {
 	void  sim_call_end(void);
 	int   sim_nclients(void);
 	SimClient *sim_client(int i);
-	long  sim_inside_preemptions(void);        // preemptions taken while the preempted client was inside an API call and another client too
+	long  sim_inside_preemptions(void);
+	void  sim_flag_set(int i, long value);     // hand a value to other clients (invisible to TSan)
+	long  sim_flag_wait(int i);                // wait for it, yielding the baton; -1 if nobody can set it        // preemptions taken while the preempted client was inside an API call and another client too
 
 	// --- event log -----------------------------------------------------------------
 	void  sim_event(const char *fmt, ...);     // appended to the per-plan event buffer (uninstrumented)
